@@ -183,6 +183,38 @@ theorem C16_table_invariant (E : Env) (hchunk : 1 ≤ E.chunk) :
   exact ⟨mapStrings_wf E T ss hchunk hw, mapStrings_consistent E T ss hchunk hc,
     mapStrings_strings E T ss hchunk, fun id v h => lookup_preserved E T ss hchunk h⟩
 
+/-- Queries (`FromQuery` on the way in, `ToQuery` on the way out — every optional field, the three
+    strings assigned through remembered indices `len(s)-1`, `s[0]`, `s[len(s)-1]`): the query comes back
+    unchanged once its strings are readable under their ids (`hknown`, discharged below for both
+    modes). With BOTH subject fields set the subject set wins and the subject id is lost
+    (`FromURLQuery` rejects that shape before the mapper sees it). -/
+theorem C16_query_roundtrip (E E' : Env) (T : Table) (q : ApiQuery)
+    (hwf : T.wf) (hchunk : 1 ≤ E.chunk) (hpage : 1 ≤ E'.pageSize) (hperm : ∀ l, (E'.keyOrder l).Perm l)
+    (hnss : E'.nss = E.nss) (hns : q.nsUnknown E = false) (hsn : q.setNsUnknown E = false)
+    (hone : q.subjectId = none ∨ q.subjectSet = none)
+    (hknown : ∀ s ∈ q.strings, (mapStrings E T q.strings).2.find (E.h s) = some s) :
+    ∃ iq, (fromQuery E T q).1 = .ok iq ∧ toQuery E' (fromQuery E T q).2 iq = .ok q :=
+  query_roundtrip E E' T q hwf hchunk hpage hperm hnss hns hsn hone hknown
+
+/-- `hknown` for the read-write mapper: it follows from injectivity. -/
+theorem C16_known_after_write (E : Env) (T : Table) (ss : List String) (hrw : E.readOnly = false)
+    (hchunk : 1 ≤ E.chunk) (hcons : Consistent E.h T) (hinj : InjOn E.h (T.strings ++ ss)) :
+    ∀ s ∈ ss, (mapStrings E T ss).2.find (E.h s) = some s :=
+  lookup_after_map E T ss hrw hchunk hcons hinj
+
+/-- `hknown` for the read-only mapper: the strings must have been written before. -/
+theorem C16_known_readonly (E : Env) (T : Table) (ss : List String) (hro : E.readOnly = true)
+    (hk : ∀ s ∈ ss, T.find (E.h s) = some s) : ∀ s ∈ ss, (mapStrings E T ss).2.find (E.h s) = some s := by
+  rw [mapStrings_table_ro E T ss hro]; exact hk
+
+/-- Expand trees (`ToTree`, one single-id lookup per node, children first): the API tree has the shape
+    of the internal tree and every node carries the table's string for its own id — for every tree
+    (any depth, any fan-out). -/
+theorem C16_tree (E : Env) (T : Table) (hwf : T.wf) (hpage : 1 ≤ E.pageSize)
+    (hperm : ∀ l, (E.keyOrder l).Perm l) (t : ITree) (hns : ITree.nsOk E t = true) :
+    toTree E T t = .ok (labelTree T t) :=
+  toTree_eq E T hwf hpage hperm t hns
+
 /-- The key order used by the driver is a permutation for every seed. -/
 theorem C16_seedOrder_perm (seed : Nat) (l : List Id) : (seedOrder seed l).Perm l := seedOrder_perm seed l
 
@@ -245,6 +277,30 @@ example : (fromTuple (env true 100) T0 (batch.map some)) =
       (.ok [⟨"n", 3, "view", .id 2⟩, ⟨"n", 1, "edit", .id 2⟩, ⟨"n", 4, "member", .set "g" 3 "member"⟩], T0) ∧
     toTuple (env true 100) T0 [⟨"n", 3, "view", .id 2⟩] = .ok [⟨"n", "doc", "view", some "", none⟩] := by
   decide
+
+open C16ex in
+-- queries: every combination of optional fields comes back; with both subject fields the subject set wins
+example : (fromQuery (env true 1) [(3, "doc"), (2, "alice")] ⟨some "n", some "doc", none, some "alice", none⟩).1 =
+      .ok ⟨some "n", some 3, none, some (.id 2)⟩ ∧
+    toQuery (env true 1) [(3, "doc"), (2, "alice")] ⟨some "n", some 3, none, some (.id 2)⟩ =
+      .ok ⟨some "n", some "doc", none, some "alice", none⟩ ∧
+    toQuery (env true 1) [(3, "doc"), (2, "alice")] ⟨none, none, some "r", some (.set "g" 3 "m")⟩ =
+      .ok ⟨none, none, some "r", none, some ⟨"g", "doc", "m"⟩⟩ ∧
+    (fromQuery (env true 1) [] ⟨none, some "doc", none, some "alice", some ⟨"g", "grp", "m"⟩⟩).1 =
+      .ok ⟨none, some 3, none, some (.set "g" 4 "m")⟩ ∧
+    (fromQuery (env true 1) [] ⟨some "x", none, none, none, none⟩).1 = .error .notFound := by
+  decide
+
+open C16ex in
+-- trees: a union node over a subject set with two leaves; an unknown namespace below the root is an error
+example : toTree (env true 1) [(3, "doc"), (2, "alice")]
+      (.node "union" (.set "n" 3 "view") [.node "leaf" (.id 2) [], .node "leaf" (.set "g" 3 "member") []]) =
+      .ok (.node "union" none (some ⟨"n", "doc", "view"⟩)
+        [.node "leaf" (some "alice") none [], .node "leaf" none (some ⟨"g", "doc", "member"⟩) []]) ∧
+    ITree.nsOk (env true 1) (.node "union" (.set "n" 3 "view") [.node "leaf" (.id 2) []]) = true := by
+  constructor
+  · rfl
+  · rfl
 
 open C16ex in
 -- the injectivity hypothesis is necessary: "zz" and "yy" collide under `h`, the first one written
